@@ -3,6 +3,6 @@
 EXTENDS CorsAdaptor, Json
 VARIABLE out
 GInit == Init /\ out = ToJson([a |-> "init"])
-GNext == Next /\ out' = ToJson([cfg |-> cfg, req |-> req', exp |-> Decide(cfg, req'), sees |-> ClientSees(cfg, req'), cls |-> ClassOf(cfg, req')])
+GNext == Next /\ out' = ToJson([cfg |-> cfg, req |-> req', exp |-> dec', sees |-> ClientSeesD(dec'), cls |-> ClassOf(cfg, req', dec')])
 GSpec == GInit /\ [][GNext]_<<vars, out>>
 =============================================================================
